@@ -602,6 +602,17 @@ func (k *Kube) serveNode(req *http.Request, name string, body []byte) (*http.Res
 		k.putNode(nn, "")
 		result = nn.DeepCopy()
 	case OpDelete:
+		// DeleteOptions preconditions, as the real server checks them.
+		if len(body) > 0 {
+			var do metav1.DeleteOptions
+			if err := json.Unmarshal(body, &do); err == nil && do.Preconditions != nil {
+				pc := do.Preconditions
+				if (pc.UID != nil && *pc.UID != stored.UID) || (pc.ResourceVersion != nil && *pc.ResourceVersion != stored.ResourceVersion) {
+					c.Fault = ifs(c.Fault == "", "409-natural", c.Fault)
+					return fail(409, metav1.StatusReasonConflict, "Operation cannot be fulfilled on nodes \""+name+"\": precondition failed", 0)
+				}
+			}
+		}
 		k.deleteNode(name)
 		w.onNodeDeleted(name, true)
 		result = stored.DeepCopy()
